@@ -52,6 +52,7 @@ namespace c14
         std::vector<LEvent> events;
         long ctors = 0, dtors = 0;
         bool strict = false; // a container member function is running
+        bool loose = false;  // no regions: every Tracked object anywhere is on the ledger (heap arrays)
 
         void reset()
         {
@@ -61,6 +62,7 @@ namespace c14
             events.clear();
             ctors = dtors = 0;
             strict = false;
+            loose = false;
         }
         void err(const std::string &s)
         {
@@ -97,6 +99,14 @@ namespace c14
         }
         void on_ctor(const void *p)
         {
+            if (loose)
+            {
+                if (live.count(p))
+                    err("construct over live element");
+                live[p] = 1;
+                ctors++;
+                return;
+            }
             size_t s;
             const Region *r = locate(p, s, "construct");
             if (!r)
@@ -109,6 +119,14 @@ namespace c14
         }
         void on_dtor(const void *p)
         {
+            if (loose)
+            {
+                if (!live.count(p))
+                    err("destroy of raw storage");
+                live.erase(p);
+                dtors++;
+                return;
+            }
             size_t s;
             const Region *r = locate(p, s, "destroy");
             if (!r)
@@ -121,6 +139,12 @@ namespace c14
         }
         void on_assign(const void *p)
         {
+            if (loose)
+            {
+                if (!live.count(p))
+                    err("assign to raw storage");
+                return;
+            }
             size_t s;
             const Region *r = locate(p, s, "assign");
             if (!r)
@@ -131,6 +155,12 @@ namespace c14
         }
         void on_read(const void *p)
         {
+            if (loose)
+            {
+                if (!live.count(p))
+                    err("copy from raw storage");
+                return;
+            }
             size_t s;
             bool al;
             const Region *r = find(p, s, al);
@@ -139,6 +169,12 @@ namespace c14
         }
         void on_moved(const void *p)
         {
+            if (loose)
+            {
+                if (!live.count(p))
+                    err("move from raw storage");
+                return;
+            }
             size_t s;
             bool al;
             const Region *r = find(p, s, al);
